@@ -537,7 +537,21 @@ func runC05Text(payload string) string {
 			}
 			q = c05TextResult(n > 0, sols.Err())
 			note(hostRenderErr(sols.Err()))
-			_ = sols.Close()
+			// a host that keeps polling after the end (or cleans up twice) must get its calls back: Next,
+			// Err and Close after the search is over return at once, whatever ended it
+			if n < 20 {
+				note(hostReturns("Solutions.Next/Err/Close after the end", func() {
+					for k := 0; k < 3; k++ {
+						_ = sols.Next()
+						_ = sols.Err()
+					}
+					_ = sols.Close()
+					_ = sols.Next()
+					_ = sols.Close()
+				}))
+			} else {
+				_ = sols.Close()
+			}
 		}
 		cancel()
 	}
